@@ -7,7 +7,8 @@ from core import fsutil, vloop
 from . import fsck as fsckmod
 from . import run_e2e, runner, scenario, upstream
 
-URLS = ["http://up.example/debian", "http://sec.example/debian-security", "http://third.example/ubuntu"]
+URLS = ["http://up.example/debian", "http://sec.example/debian-security", "http://third.example/ubuntu",
+        "http://fourth.example/repo", "http://fifth.example/x/y"]
 
 
 def evolve(rng, repo):
